@@ -64,6 +64,24 @@ type Out struct {
 	Funcs       int         `json:"reachable_funcs"`
 	Access      []Access    `json:"transient_access"`
 	ConfigReads []Access    `json:"config_reads"` // x.config.F read in the apply path
+	Commands    []CmdKind   `json:"commands"`     // the keys of the applyFunc dispatch table with their handlers
+	Exposed     []Exposure  `json:"exposed_reads"`
+}
+
+// CmdKind: one entry of `var applyFunc = map[proto2.Command_Type]func(..){ proto2.Command_X: applyY, ... }`
+type CmdKind struct {
+	Kind    string `json:"kind"`
+	Handler string `json:"handler"`
+}
+
+// Exposure: starting at Root (an apply handler or storeFSM.Apply/ApplyBatch/Restore/Snapshot) some path of calls reaches a READ
+// of the transient field Field that is not preceded - in the reading function or in a caller on the path, as a statement of
+// the function body that comes before the read / the call - by an assignment to that field. The value read may then be the
+// one the replica had BEFORE it restored a snapshot (or the zero value of a fresh Data).
+type Exposure struct {
+	Field string `json:"field"`
+	Root  string `json:"root"`
+	Via   string `json:"via"` // the call chain, for the reviewer
 }
 
 type fn struct {
@@ -768,6 +786,39 @@ func main() {
 			return true
 		})
 	}
+	// ---- command kinds: the dispatch table of storeFSM.executeCmd
+	for _, f := range tsmeta {
+		for _, d := range f.Decls {
+			gd, ok := d.(*ast.GenDecl)
+			if !ok {
+				continue
+			}
+			for _, sp := range gd.Specs {
+				vs, ok := sp.(*ast.ValueSpec)
+				if !ok || len(vs.Names) != 1 || vs.Names[0].Name != "applyFunc" || len(vs.Values) != 1 {
+					continue
+				}
+				cl, ok := vs.Values[0].(*ast.CompositeLit)
+				if !ok {
+					continue
+				}
+				for _, el := range cl.Elts {
+					kv, ok := el.(*ast.KeyValueExpr)
+					if !ok {
+						continue
+					}
+					k := exprStr(kv.Key)
+					if i := strings.LastIndex(k, "Command_"); i >= 0 {
+						k = k[i+len("Command_"):]
+					}
+					out.Commands = append(out.Commands, CmdKind{Kind: k, Handler: exprStr(kv.Value)})
+				}
+			}
+		}
+	}
+	sort.Slice(out.Commands, func(i, j int) bool { return out.Commands[i].Kind < out.Commands[j].Kind })
+	// ---- exposure of the transient fields (see Exposure)
+	out.Exposed = exposures(rfns, tnames)
 	sort.Slice(out.Access, func(i, j int) bool {
 		a, b := out.Access[i], out.Access[j]
 		return a.Field+a.Func+a.Mode < b.Field+b.Func+b.Mode
@@ -954,4 +1005,180 @@ func childBody(n ast.Node) ast.Node {
 		return x.Body
 	}
 	return n
+}
+
+// isConfigSel: x.config.F (a read of the node's configuration, not of the catalogue)
+func isConfigSel(se *ast.SelectorExpr) bool {
+	inner, ok := se.X.(*ast.SelectorExpr)
+	return ok && inner.Sel.Name == "config"
+}
+
+type fieldEvents struct {
+	reads  []token.Pos          // reads of the field anywhere in the body
+	writes []token.Pos          // assignments to the field that are statements of the function body itself (they dominate what follows)
+	calls  map[string][]token.Pos // bare callee name -> positions
+}
+
+func eventsOf(g *fn, field string) *fieldEvents {
+	ev := &fieldEvents{calls: map[string][]token.Pos{}}
+	lhs := map[*ast.SelectorExpr]bool{}
+	for _, st := range g.decl.Body.List {
+		if as, ok := st.(*ast.AssignStmt); ok {
+			for _, l := range as.Lhs {
+				if se, ok := l.(*ast.SelectorExpr); ok && se.Sel.Name == field {
+					// the right-hand side is evaluated first: the write takes effect at the end of the statement
+					ev.writes = append(ev.writes, as.End())
+				}
+			}
+		}
+	}
+	ast.Inspect(g.decl.Body, func(n ast.Node) bool {
+		switch x := n.(type) {
+		case *ast.AssignStmt:
+			for _, l := range x.Lhs {
+				if se, ok := l.(*ast.SelectorExpr); ok && se.Sel.Name == field && x.Tok == token.ASSIGN {
+					lhs[se] = true
+				}
+			}
+		case *ast.SelectorExpr:
+			if x.Sel.Name == field && !lhs[x] && !isConfigSel(x) {
+				ev.reads = append(ev.reads, x.Pos())
+			}
+		case *ast.CallExpr:
+			name := ""
+			switch f := x.Fun.(type) {
+			case *ast.Ident:
+				if !builtins[f.Name] {
+					name = f.Name
+				}
+			case *ast.SelectorExpr:
+				name = f.Sel.Name
+				// receiver hints: `meta2.F(..)` is a function of the lifted package, `<..>.data.M(..)` a method of Data
+				switch r := f.X.(type) {
+				case *ast.Ident:
+					if r.Name == "meta2" {
+						name = "meta2." + name
+					} else if r.Name == "data" {
+						name = "Data." + name
+					}
+				case *ast.SelectorExpr:
+					if r.Sel.Name == "data" {
+						name = "Data." + name
+					}
+				}
+			}
+			if name != "" {
+				ev.calls[name] = append(ev.calls[name], x.Pos())
+			}
+		}
+		return true
+	})
+	return ev
+}
+
+var builtins = map[string]bool{"close": true, "len": true, "cap": true, "append": true, "make": true, "delete": true, "copy": true, "panic": true, "new": true, "recover": true, "print": true, "println": true, "min": true, "max": true}
+
+// callees resolves a (possibly hinted) callee name of eventsOf
+func callees(n string) []*fn {
+	if strings.HasPrefix(n, "meta2.") {
+		var r []*fn
+		for _, h := range funcs[n[6:]] {
+			if h.pkg == "meta" && h.recv == "" {
+				r = append(r, h)
+			}
+		}
+		return r
+	}
+	if strings.HasPrefix(n, "Data.") {
+		var r []*fn
+		for _, h := range funcs[n[5:]] {
+			if h.pkg == "meta" && h.recv == "Data" {
+				r = append(r, h)
+			}
+		}
+		return r
+	}
+	return funcs[n]
+}
+
+func writtenBefore(ev *fieldEvents, pos token.Pos) bool {
+	for _, w := range ev.writes {
+		if w <= pos {
+			return true
+		}
+	}
+	return false
+}
+
+func exposures(rfns []*fn, tnames map[string]bool) []Exposure {
+	var res []Exposure
+	inReach := map[*fn]bool{}
+	for _, g := range rfns {
+		inReach[g] = true
+	}
+	var fields []string
+	for f := range tnames {
+		fields = append(fields, f)
+	}
+	sort.Strings(fields)
+	for _, field := range fields {
+		evs := map[*fn]*fieldEvents{}
+		for _, g := range rfns {
+			if g.decl.Body != nil {
+				evs[g] = eventsOf(g, field)
+			}
+		}
+		// least fixpoint: exposed[g] = chain of function names from g to an unprotected read
+		exposed := map[*fn]string{}
+		for changed := true; changed; {
+			changed = false
+			for _, g := range rfns {
+				ev := evs[g]
+				if ev == nil || exposed[g] != "" {
+					continue
+				}
+				for _, r := range ev.reads {
+					if !writtenBefore(ev, r) {
+						exposed[g] = g.name
+						break
+					}
+				}
+				if exposed[g] == "" {
+					var names []string
+					for n := range ev.calls {
+						names = append(names, n)
+					}
+					sort.Strings(names)
+				search:
+					for _, n := range names {
+						for _, h := range callees(n) {
+							if !inReach[h] || exposed[h] == "" || (g.pkg == "meta" && h.pkg != "meta") {
+								continue
+							}
+							for _, pos := range ev.calls[n] {
+								if !writtenBefore(ev, pos) {
+									exposed[g] = g.name + " -> " + exposed[h]
+									break search
+								}
+							}
+						}
+					}
+				}
+				if exposed[g] != "" {
+					changed = true
+				}
+			}
+		}
+		for _, g := range rfns {
+			n := g.decl.Name.Name
+			// the handlers proper (methods of storeFSM; the table entries are one-line wrappers around them, or - applyVerifyDataNode -
+			// do nothing) and the entry points raft calls
+			isRoot := g.pkg == "tsmeta" && g.recv == "storeFSM" && (strings.HasPrefix(n, "apply") || n == "Apply" || n == "ApplyBatch" || n == "Restore" || n == "Snapshot")
+			if isRoot && exposed[g] != "" {
+				res = append(res, Exposure{Field: field, Root: g.name, Via: exposed[g]})
+			}
+		}
+	}
+	sort.Slice(res, func(i, j int) bool { return res[i].Field+res[i].Root < res[j].Field+res[j].Root })
+	return res
 }
